@@ -5,6 +5,7 @@
 set -u
 cd "$(dirname "$0")"
 export GOFLAGS=-mod=mod GOPROXY=off GOSUMDB=off GOTOOLCHAIN=local
+export VERIF_DIR="$PWD"
 ID="${1:?property id}"; MODE="${2:-quick}"
 mkdir -p .build/bin evidence
 [ -f .build/overlay.json ] || python3 tools/mkoverlay.py >/dev/null || { echo "check.sh: runtime overlay generation failed" >&2; exit 2; }
